@@ -206,9 +206,12 @@ def check(run):
     run.cov["rule"] = ("case = configuration family (restraints fixed / moving centres continuous+staged / changing force constant continuous+"
                        "staged+lambdaSchedule, accumulated work, TI; histogram; extended-Lagrangian variable with and without Langevin/"
                        "reflecting boundaries under a fixed/moving restraint; ABMD; ABF same-step and lagged, 1-2 variables, other restraint; "
-                       "metadynamics with/without grids, keepHills, well-tempered, excursions outside the grid; ALB; OPES) x dyadic history; "
+                       "metadynamics with/without grids, keepHills, well-tempered, ebMeta, excursions outside the grid; ALB; OPES (adaptive widths, neighbour list, "
+                       "PMF grid); projected ABF; timeStepFactor; TI samples) x dyadic history; "
                        "for EVERY stop step K of the history (quick) and both state formats: U, A(K), B(K) runs compared per step "
-                       "(values, energies, atomic forces, dA/dLambda lines) and in the final state; loaded state written back compared byte for byte. "
+                       "(values, energies, atomic forces, dA/dLambda lines) and in the final state; loaded state written back compared byte for byte; "
+                       "per case also 2-4 stop steps each of: the restart file the module writes by itself (colvarsRestartFrequency) loaded by a fresh instance, "
+                       "a run boundary without reload, the state as a memory buffer, a chain of three jobs. "
                        "non-trivial = history >= 8 steps and >= 8 (K, format) resumes; distinct = distinct (family, feature tags)")
     run.assumptions += [
         "theorems are about the generic machine/protocol model and the object models of coq/C03 (restraint update = C06 model of the repaired code); "
